@@ -19,7 +19,8 @@ prop("C01", "other",
       "CW-DEC-NONZERO", "CW-ATTEMPT-RECHECK", "CW-DEFERRED-ONLY"],
      [COMPOSITION], assumptions=TRUST)
 prop("C03", "other",
-     ["CW-SITES", "OWN-BALANCE", "OWN-PRIMITIVES", "CW-WEAK-PROTOCOL", "CW-SPLIT-INC-PROTECTED", "CW-DEFERRED-ONLY"],
+     ["CW-SITES", "OWN-BALANCE", "OWN-PRIMITIVES", "CW-WEAK-PROTOCOL", "CW-DESTRUCT-ORDER", "CW-SPLIT-INC-PROTECTED",
+      "CW-DEFERRED-ONLY"],
      [COMPOSITION], assumptions=TRUST)
 prop("C04", "other",
      ["CW-SITES", "CW-DESTRUCT-ONCE", "CW-DESTRUCT-ORDER", "CW-ZERO-DEFERS", "CW-ATTEMPT-RECHECK", "CW-DEC-NONZERO",
@@ -31,7 +32,7 @@ prop("C09", "other",
      ["linearizability of concurrent histories (each completed call performs one successful atomic operation on one word; "
       "the history-level claim is not checked)"], assumptions=TRUST)
 prop("C10", "other",
-     ["OWN-BALANCE", "OWN-PRIMITIVES", "CW-ALLOC-RANGE", "CW-DEC-NONZERO", "CW-ZERO-DEFERS"],
+     ["OWN-BALANCE", "OWN-PRIMITIVES", "CW-ALLOC-RANGE", "CW-DEC-NONZERO", "CW-ZERO-DEFERS", "CW-WEAK-PROTOCOL"],
      [], assumptions=TRUST)
 
 # ------------------------------------------------------------------------------------------
@@ -53,6 +54,7 @@ register("EBR-DEFERRED-INLINE", rules_ebr.rule_deferred_inline)
 register("EBR-TLS", rules_ebr.rule_tls)
 register("EBR-LIST", rules_ebr.rule_list)
 register("EBR-QUEUE", rules_ebr.rule_queue)
+register("EBR-QUEUE-DROP", rules_ebr.rule_queue_drop)
 register("REC-DEPTH-GUARD", rules_rec.rule_depth_guard)
 register("REC-IMMEDIATE", rules_rec.rule_immediate)
 
@@ -64,7 +66,8 @@ prop("C02", "other",
      ["the EBR grace-period argument itself (C13)", COMPOSITION],
      witnesses=["TY-SNAPSHOT-GUARD", "TY-REACTIVATE-MUT"], assumptions=TRUST)
 prop("C05", "other",
-     ["CW-SITES", "CW-DESTRUCT-ONCE", "CW-INC-FAIL-ON-DESTRUCTED", "CW-TOKEN", "CW-SPLIT-INC-PROTECTED"],
+     ["CW-SITES", "CW-DESTRUCT-ONCE", "CW-INC-FAIL-ON-DESTRUCTED", "CW-TOKEN", "CW-SPLIT-INC-PROTECTED", "CW-DEFERRED-ONLY",
+      "CW-ATTEMPT-RECHECK"],
      ["linearisation order of racing upgrades beyond these atomicity facts"],
      witnesses=["TY-WEAK-NO-DEREF"], assumptions=TRUST)
 prop("C06", "other",
@@ -84,7 +87,7 @@ prop("C13", "other",
       "CW-DEFERRED-ONLY"],
      [SCHED], assumptions=TRUST)
 prop("C15", "other",
-     ["EBR-NO-FORGET", "EBR-FINALIZE-HANDOFF", "EBR-DEFERRED-INLINE", "EBR-QUEUE"],
+     ["EBR-NO-FORGET", "EBR-FINALIZE-HANDOFF", "EBR-DEFERRED-INLINE", "EBR-QUEUE-DROP", "EBR-QUEUE"],
      ["'eventually' (liveness)"], assumptions=TRUST)
 prop("C16", "other",
      ["EBR-GUARD-COUNT", "EBR-REACTIVATE", "EBR-EPOCH-WRITERS", "EBR-COLLECT-OUTERMOST", "TY-SIG"],
